@@ -283,6 +283,20 @@ def _elem_addr(a):
     return (base + off).ravel()
 
 
+def _bounds(a):
+    ad = _elem_addr(a)
+    return (int(ad.min()), int(ad.max()) + a.itemsize) if ad.size else None
+
+
+def _owned(a, ranges):
+    """True if `a` does not overlap any memory that was shared when the pool started (a task that
+    returns a view of a pre-allocated, shared output array does not own it)."""
+    b = _bounds(a)
+    if b is None:
+        return False
+    return not any(b[0] < hi and lo < b[1] for lo, hi in ranges)
+
+
 def _snapshot(arrs):
     import numpy as np
 
@@ -359,13 +373,16 @@ class ControlledExecutor:
                 for g in self.all:
                     _reach(g._task, shared, seen)
                 _globals_arrays(shared, seen)
-                st = self._fp = dict(shared=shared, seen=seen, res_of={}, ntasks=len(self.all))
+                ranges = [r for r in (_bounds(a) for a in shared) if r is not None]
+                st = self._fp = dict(shared=shared, seen=seen, res_of={}, ntasks=len(self.all),
+                                     ranges=ranges)
                 for g in self.all:
                     if g.done() and g.exception() is None:
                         k = len(shared)
                         _reach(g.result(), shared, seen)
                         for j in range(k, len(shared)):
-                            st["res_of"][j] = g._idx
+                            if _owned(shared[j], ranges):
+                                st["res_of"][j] = g._idx
             shared, res_of = st["shared"], st["res_of"]
             snap = _snapshot(shared)
             tracked_ids = {(a.__array_interface__['data'][0], a.shape, a.strides) for a in shared}
@@ -406,7 +423,8 @@ class ControlledExecutor:
                 k = len(shared)
                 _reach(f.result(), shared, st["seen"])
                 for j in range(k, len(shared)):
-                    res_of[j] = f._idx
+                    if _owned(shared[j], st["ranges"]):
+                        res_of[j] = f._idx
 
     def shutdown(self, wait=True, **kw):
         if self.n_submitted:
